@@ -242,6 +242,11 @@ func dimClass(t *table) string {
 // both rules; the op line says which one the code under test implements)
 var quoteLB bool
 
+// the rule the cited theorem (csv_roundtrip) is about, and the one the model writer is run with:
+// since /repo 3f80460 a field containing CR or LF is quoted.  If the real writer stops doing so the
+// probe reports it as a law failure and the enc stream shows model/implementation differences.
+const claimedQuoteLB = true
+
 func probeQuoteLB() bool {
 	t := &table{header: []string{"a", "b"}, rows: [][]cell{{mkCell(value.NewString("x\ny")), mkCell(value.NewString("r\rs"))}}}
 	b, err := realEncode(t, opts{format: option.CSV, delim: ',', lb: text.LF, enc: text.UTF8})
@@ -262,7 +267,7 @@ func encCase(g *hc.Gen, o *hc.Out) {
 	var line string
 	switch f {
 	case option.CSV, option.TSV:
-		line = fmt.Sprintf("c02.enc csv %d %s %s %s %s %s", op.delim, lbName(op.lb), b01(op.encloseAll), b01(op.withoutHeader), b01(quoteLB), tableToks(t, false))
+		line = fmt.Sprintf("c02.enc csv %d %s %s %s %s %s", op.delim, lbName(op.lb), b01(op.encloseAll), b01(op.withoutHeader), b01(claimedQuoteLB), tableToks(t, false))
 	case option.LTSV:
 		line = fmt.Sprintf("c02.enc ltsv %s %s", lbName(op.lb), tableToks(t, false))
 	case option.FIXED:
@@ -878,6 +883,9 @@ func main() {
 		defer palProc.Close()
 		quoteLB = probeQuoteLB()
 		o.Count("probe:writer_quotes_line_breaks:" + b01(quoteLB))
+		if quoteLB != claimedQuoteLB {
+			lawFail(o, "roundtrip:csv:linebreak_in_cell", map[string]interface{}{"probe": "EncodeView(CSV) of the cells \"x\\ny\", \"r\\rs\" is not a,b / \"x\\ny\",\"r\\rs\": fields containing CR/LF are not quoted"})
+		}
 		corpus(o, scratch)
 		for i := 0; i < n; i++ {
 			switch k := i % 10; {
